@@ -404,6 +404,24 @@ Example C07_timeout_example :
     Some ([(1, PM 3); (4, PM 7)], 0%nat) ].
 Proof. vm_compute. reflexivity. Qed.
 
+(* waitthread applied to a group: callee 1 ends at once and puts the caller on the timer; the
+   caller registers again on callee 2 (wait 2), is taken off the timer, and proceeds (prints 5)
+   only in the frame in which callee 2 has ended.  With two BLOCKING callees the engine (and
+   the model) lets the caller proceed when the FIRST of them ends and destroys the other one
+   (second history: thread 2 never prints 7). *)
+Example C07_group_waitthread_example :
+  map (option_map (fun o => (prints o, nthreads o)))
+      (run [ OStart [IPrint 1; IWaitThreadGroup [[IPrint 2]; [IPrint 3; IWait 2; IPrint 4]]; IPrint 5];
+             OAdvance 1; OExecute; OAdvance 1; OExecute ]) =
+  [ Some ([(0, PM 1); (1, PM 2); (2, PM 3)], 2%nat); Some ([], 2%nat); Some ([], 2%nat); Some ([], 2%nat);
+    Some ([(2, PM 4); (0, PM 5)], 0%nat) ] /\
+  map (option_map (fun o => (prints o, nthreads o)))
+      (run [ OStart [IWaitThreadGroup [[IPrint 4; IWait 1; IPrint 5]; [IPrint 6; IWait 2; IPrint 7]]; IPrint 8];
+             OAdvance 1; OExecute; OAdvance 1; OExecute ]) =
+  [ Some ([(1, PM 4); (2, PM 6)], 3%nat); Some ([], 3%nat); Some ([(1, PM 5); (0, PM 8)], 0%nat);
+    Some ([], 0%nat); Some ([], 0%nat) ].
+Proof. vm_compute. split; reflexivity. Qed.
+
 (* The stale wake-up (finding C07-stale-wake): model (= engine) prints 4 although (o0, c) was
    never notified; in the specification thread 2 stays blocked on (o0, c) and the flag is up. *)
 Example C07_stale_wake_example :
